@@ -81,6 +81,9 @@ let dump_table (cfg : config) (buf : Buffer.t) (i : int) (s : tslot) =
   if not t.cur.bdead then dump_array buf " C" t.cur;
   if not t.old.bdead then dump_array buf " O" t.old
 
+let hex_of_bytes (bs : n list) : string =
+  String.concat "" (List.map (fun b -> Printf.sprintf "%02x" (int_of_n b)) bs)
+
 let dump_world (cfg : config) (buf : Buffer.t) (w : world) =
   List.iteri (fun i o -> match o with None -> () | Some s -> dump_table cfg buf i s) w.tabs
 
@@ -135,12 +138,174 @@ let parse_op (toks : string list) : op =
   | ["destroy"] -> ODestroy
   | _ -> failwith ("bad op: " ^ String.concat " " toks)
 
+let parse_cop (toks : string list) : cop =
+  match toks with
+  | ["c.init"; x] -> CInit (nn x)
+  | ["c.free"] -> CFree
+  | ["c.write"; f] -> CWrite (ni f)
+  | ["c.read"; f; "full"; d] -> CRead (ni f, None, ni d)
+  | ["c.read"; f; nb; d] -> CRead (ni f, Some (nn nb), ni d)
+  | _ -> CFwd (parse_op toks)
+
+(* ---------- judge mode: the extracted acceptor (Spec.v) applied to the implementation's output ---------- *)
+let exn_of_name = function
+  | "load_factor_too_low" -> ELoadFactorTooLow | "maximum_hashpower_exceeded" -> EMaxHashpower
+  | "invalid_argument" -> EInvalidArgument | "out_of_range" -> EOutOfRange | "bad_alloc" -> EBadAlloc
+  | "user" -> EUser | "OUT_OF_FUEL" -> EOutOfFuel | _ -> EUnmodelled
+
+let parse_atom (a : string) : rv =
+  let n = String.length a in
+  if a = "true" then RBool true else if a = "false" then RBool false
+  else if a = "-" then RNone
+  else if n > 4 && String.sub a 0 4 = "exc:" then RExn (exn_of_name (String.sub a 4 (n - 4)))
+  else if a.[0] = '@' then begin
+    match String.split_on_char '.' (String.sub a 1 (n - 1)) with
+    | [b; s] -> RPos (nn b, nn s) | _ -> failwith ("bad pos " ^ a) end
+  else if n > 3 && String.sub a 0 3 = "fn(" then begin
+    match String.split_on_char ',' (String.sub a 3 (n - 4)) with
+    | [v; c] -> RFn (zz v, c = "new") | _ -> failwith ("bad fn " ^ a) end
+  else match String.index_opt a '=' with
+    | Some i -> RKV (nn (String.sub a 0 i), zz (String.sub a (i + 1) (n - i - 1)))
+    | None -> RInt (zz a)
+
+let clause_name = function
+  | C02_result -> "C02" | C05_size -> "C05" | C09_iter -> "C09" | C10_limit -> "C10"
+  | C12_stream -> "C12" | C11_special -> "C11" | C16_args -> "C16" | C17_functor -> "C17"
+
+let parse_obs (toks : string list) : obs =
+  let tbl = Hashtbl.create 16 in
+  List.iter (fun t -> match String.index_opt t '=' with
+    | Some i -> Hashtbl.replace tbl (String.sub t 0 i) (String.sub t (i + 1) (String.length t - i - 1))
+    | None -> ()) toks;
+  let g k = Hashtbl.find tbl k in
+  let (mn, md) = match g "mlf" with
+    | "nan" -> (N0, N0)
+    | m -> (match String.split_on_char '/' m with [a; b] -> (nn a, nn b) | _ -> (N0, N0)) in
+  { o_hp = nn (g "hp"); o_size = nn (g "size"); o_cap = nn (g "cap"); o_mlfn = mn; o_mlfd = md;
+    o_mhp = (if g "mhp" = "none" then no_max else nn (g "mhp")); o_act = (g "act" = "1"); o_dead = (g "dead" = "1") }
+
+let dflt_obs = { o_hp = N0; o_size = N0; o_cap = N0; o_mlfn = N0; o_mlfd = N0; o_mhp = no_max; o_act = false; o_dead = false }
+
+let judge_main (script : string) (implout : string) =
+  let spbv = ref (n_of_int 4) in
+  let ic = open_in script in
+  (try while true do
+    let toks = List.filter (fun s -> s <> "") (String.split_on_char ' ' (String.trim (input_line ic))) in
+    (match toks with "cfg" :: a :: _ -> spbv := nn a | _ -> ())
+  done with End_of_file -> ());
+  close_in ic;
+  let ic = open_in implout in
+  let lines = ref [] in
+  (try while true do lines := input_line ic :: !lines done with End_of_file -> ());
+  let lines = Array.of_list (List.rev !lines) in
+  let st = ref sst_init in
+  let cfiles : (int, n list) Hashtbl.t = Hashtbl.create 4 in
+  let prev : obs option array = Array.make 4 None in
+  let i = ref 0 in
+  let nl = Array.length lines in
+  let nops = ref 0 in
+  while !i < nl do
+    let l = lines.(!i) in
+    if String.length l > 0 && l.[0] = '#' then begin
+      let toks = List.filter (fun s -> s <> "") (String.split_on_char ' ' l) in
+      (match toks with
+       | ln :: tab :: rest when !i + 1 < nl ->
+         let rl = lines.(!i + 1) in
+         let atoms = List.filter (fun s -> s <> "") (String.split_on_char ' ' rl) in
+         let is_bytes x = String.length x > 6 && String.sub x 0 6 = "bytes=" in
+         let r = (match atoms with "R" :: xs -> List.map parse_atom (List.filter (fun x -> not (is_bytes x)) xs) | _ -> []) in
+         (* collect the dump that follows *)
+         let posts : obs option array = Array.make 4 None in
+         let j = ref (!i + 2) in
+         let herr = ref false in
+         while !j < nl && not (String.length lines.(!j) > 0 && (lines.(!j).[0] = '#' || lines.(!j).[0] = 'E')) do
+           let dl = lines.(!j) in
+           if String.length dl > 1 && dl.[0] = 'T' then begin
+             let dt = List.filter (fun s -> s <> "") (String.split_on_char ' ' dl) in
+             let ti = int_of_string (String.sub (List.hd dt) 1 (String.length (List.hd dt) - 1)) in
+             posts.(ti) <- Some (parse_obs (List.tl dt))
+           end else if String.length dl > 13 && String.sub dl 0 13 = "HARNESS-ERROR" then herr := true;
+           incr j
+         done;
+         let a = int_of_string tab in
+         let pre = (match prev.(a) with Some x -> x | None -> dflt_obs) in
+         let post = (match posts.(a) with Some x -> x | None -> dflt_obs) in
+         let contents_of (i : int) : (n * z) list option =
+           (match List.nth_opt !st.s_tabs i with Some (Some t) when not t.st_moved -> Some t.st_m | _ -> None) in
+         let put_tab (i : int) (m : (n * z) list) =
+           st := { !st with s_tabs = List.mapi (fun j x -> if j = i then Some { st_m = m; st_act = false; st_moved = false } else x) !st.s_tabs } in
+         let cblame = ref [] in
+         let (st', cls) =
+           (match rest with
+            | ["c.init"; x] -> judge_op fapply_std !spbv !st (nat_of_int a) (ONew (nn x)) r pre post
+            | ["c.free"] -> judge_op fapply_std !spbv !st (nat_of_int a) ODestroy r pre post
+            | ["c.write"; f] ->
+              (* the bytes the implementation wrote must decode (extracted CApi.decode_file) to the contents *)
+              let hexs = (match List.rev atoms with h :: _ when String.length h > 6 && String.sub h 0 6 = "bytes=" -> String.sub h 6 (String.length h - 6) | _ -> "") in
+              let bytes = List.init (String.length hexs / 2) (fun i -> n_of_int (int_of_string ("0x" ^ String.sub hexs (2 * i) 2))) in
+              Hashtbl.replace cfiles (int_of_string f) bytes;
+              (match decode_file bytes, contents_of a with
+               | Some (cnt, pairs), Some m ->
+                 let sortp l = List.sort compare (List.map (fun (k, v) -> (string_of_n k, string_of_z v)) l) in
+                 if int_of_n cnt <> List.length m || sortp pairs <> sortp m then cblame := ["C14"]
+               | None, Some _ -> cblame := ["C14"]
+               | _, None -> ());
+              (!st, [])
+            | ["c.read"; f; nb; d] ->
+              (match Hashtbl.find_opt cfiles (int_of_string f) with
+               | None -> (!st, [])
+               | Some bytes ->
+                 let data = if nb = "full" then bytes else List.filteri (fun i _ -> i < int_of_string nb) bytes in
+                 let res_true = (match r with [RBool true] -> true | _ -> false) in
+                 let res_null = (match r with [RNone] -> true | _ -> false) in
+                 (match r with [RExn EUnmodelled] -> () | _ ->
+                 (match decode_file data with
+                  | None -> if not res_null then cblame := ["C14"]
+                  | Some (_, pairs) ->
+                    if not res_true then cblame := [(match r with [RExn _] -> "C15" | _ -> "C14")]
+                    else begin
+                      (* first occurrence of a key wins, as with insert *)
+                      let m = List.fold_left (fun acc (k, v) -> if List.mem_assoc k acc then acc else acc @ [(k, v)]) [] pairs in
+                      put_tab (int_of_string d) m
+                    end));
+                 (!st, []))
+            | _ -> judge_op fapply_std !spbv !st (nat_of_int a) (parse_op rest) r pre post) in
+         st := st';
+         let cls2 = judge_stats !spbv !st (Array.to_list posts) in
+         incr nops;
+         List.iter (fun c -> Printf.printf "BLAME %s %s :: %s\n" ln (clause_name c) (String.concat " " (tab :: rest))) (cls @ cls2);
+         List.iter (fun c -> Printf.printf "BLAME %s %s :: %s\n" ln c (String.concat " " (tab :: rest))) !cblame;
+         if !herr then Printf.printf "BLAME %s HARNESS :: %s\n" ln (String.concat " " (tab :: rest));
+         Array.blit posts 0 prev 0 4;
+         i := !j
+       | _ -> incr i)
+    end else incr i
+  done;
+  Printf.printf "JUDGED %d\n" !nops
+
+(* ---------- leaf mode: the generated arithmetic (gen/HashGen.v, extracted) on given arguments ---------- *)
+let leaf_main () =
+  (try while true do
+    let toks = List.filter (fun s -> s <> "") (String.split_on_char ' ' (String.trim (input_line stdin))) in
+    let v = match toks with
+      | ["partial_key"; h] -> partial_key (nn h)
+      | ["index_hash"; hp; h] -> index_hash (nn hp) (nn h)
+      | ["alt_index"; hp; p; i] -> alt_index (nn hp) (nn p) (nn i)
+      | ["lock_ind"; b] -> lock_ind_gen kMaxNumLocks (nn b)
+      | ["hashsize"; hp] -> hashsize (nn hp)
+      | ["hashmask"; hp] -> hashmask (nn hp)
+      | _ -> failwith "bad leaf line" in
+    print_string (string_of_n v); print_char '\n'
+  done with End_of_file -> ())
+
 let () =
+  if Array.length Sys.argv > 1 && Sys.argv.(1) = "--judge" then (judge_main Sys.argv.(2) Sys.argv.(3); exit 0);
+  if Array.length Sys.argv > 1 && Sys.argv.(1) = "--leaf" then (leaf_main (); exit 0);
   let ic = if Array.length Sys.argv > 1 then open_in Sys.argv.(1) else stdin in
   let cfg = ref { spb = n_of_int 4; lbits = n_of_int 16; simple = true; nothrow = true; destructive = false } in
   let hashes : (n, n) Hashtbl.t = Hashtbl.create 64 in
   let hash k = match Hashtbl.find_opt hashes k with Some h -> h | None -> k in
-  let w = ref init_world in
+  let w = ref cworld_init in
   let buf = Buffer.create 65536 in
   let lineno = ref 0 in
   (try
@@ -155,13 +320,14 @@ let () =
         cfg := { spb = nn a; lbits = nn b; simple = bb c; nothrow = bb d; destructive = bb e }
       | ["key"; k; h] -> Hashtbl.replace hashes (nn k) (nn h)
       | tab :: rest ->
-        let o = parse_op rest in
-        let (w', out) = step !cfg hash fapply_std !w (nat_of_int (int_of_string tab)) o in
+        let o = parse_cop rest in
+        let ((w', out), bytes) = cstep !cfg hash fapply_std !w (nat_of_int (int_of_string tab)) o in
         w := w';
         Buffer.add_string buf (Printf.sprintf "#%d %s\nR" !lineno (String.concat " " toks));
         List.iter (fun r -> Buffer.add_char buf ' '; Buffer.add_string buf (rv_str r)) out;
+        (match bytes with Some bs -> Buffer.add_string buf (" bytes=" ^ hex_of_bytes bs) | None -> ());
         Buffer.add_char buf '\n';
-        dump_world !cfg buf !w;
+        dump_world !cfg buf !w.cw;
         if Buffer.length buf > 1 lsl 20 then (print_string (Buffer.contents buf); Buffer.clear buf)
     done
   with End_of_file -> ());
